@@ -20,6 +20,7 @@ import (
 
 var all []*gm.MsgType
 var byName = map[string]*gm.MsgType{}
+var shapesAccepted, shapesRefused int
 
 func load() {
 	corpus, err := gm.Corpus()
@@ -28,11 +29,17 @@ func load() {
 	}
 	all = corpus
 	// user shapes through their own dialect
-	drw := &dialect.ReadWriter{Dialect: &dialect.Dialect{Version: 3, Messages: shapes.All}}
-	if err := drw.Initialize(); err != nil {
-		bx.Fatalf("user shapes dialect rejected by the library: %v", err)
+	accepted, refused := gm.AcceptedShapes(shapes.All)
+	shapesRefused = len(refused)
+	if len(accepted) == 0 {
+		bx.Fatalf("the library refuses every one of the %d user-defined shapes: nothing to check", len(shapes.All))
 	}
-	for _, m := range shapes.All {
+	drw := &dialect.ReadWriter{Dialect: &dialect.Dialect{Version: 3, Messages: accepted}}
+	if err := drw.Initialize(); err != nil {
+		bx.Fatalf("user shapes accepted one by one but refused as a dialect: %v", err)
+	}
+	shapesAccepted = len(accepted)
+	for _, m := range accepted {
 		t := reflect.TypeOf(m).Elem()
 		def, err := ref.DefFromStruct(t, m.GetID())
 		if err != nil {
@@ -209,13 +216,14 @@ func main() {
 		"golden CRC_EXTRA table: 222 standard messages, double-sourced (remembered c_library_v2 value == spec derivation on the pinned tree)",
 	}
 	r.Finish(map[string]any{
-		"evaluations":         evals.N(),
-		"distinct_nontrivial": distinct.N(),
-		"rule":                "per message type: CRC_EXTRA, sizes, and for every element x boundary value x base x version: Write == ref.Encode, Read(ref.Encode) == canonical value; distinct = message struct definitions covered completely",
-		"elements":            elems.N(),
-		"shipped_types":       len(all) - len(shapes.All),
-		"user_shapes":         len(shapes.All),
-		"golden_entries":      len(ref.GoldenCRC),
+		"evaluations":                    evals.N(),
+		"distinct_nontrivial":            distinct.N(),
+		"rule":                           "per message type: CRC_EXTRA, sizes, and for every element x boundary value x base x version: Write == ref.Encode, Read(ref.Encode) == canonical value; distinct = message struct definitions covered completely",
+		"elements":                       elems.N(),
+		"shipped_types":                  len(all) - shapesAccepted,
+		"user_shapes":                    shapesAccepted,
+		"user_shapes_refused_by_library": shapesRefused,
+		"golden_entries":                 len(ref.GoldenCRC),
 	})
 }
 
